@@ -160,7 +160,7 @@ PROPS["C17"] = Prop(
     "EvalBuiltinFuncCallFailed is invisible to the renderer, each user-call wrapper yields exactly one stack-trace line. "
     "(2) Located-ness as an inductive postcondition `located(e)` (AtLoc, or a context wrapper of a located error) on every function "
     "of the V units: assuming callees return located errors, the function returns located errors.",
-    vunits=[V_RENDER, V_CTL, V_RANGE, VUnit('name_bind', 'name_bind', ['bind::bind_next_name', 'bind::bind_name']), VUnit('list_bind', 'list_bind', ['bind::bind_list']), VUnit('call', 'call', ['eval::eval_call']), VUnit('scoped', 'scoped', ['eval::eval_stmts', 'eval::eval_stmts_in_new_scope'])],
+    vunits=[V_RENDER, V_CTL, V_RANGE, VUnit('name_bind', 'name_bind', ['bind::bind_next_name', 'bind::bind_name']), VUnit('list_bind', 'list_bind', ['bind::bind_list']), VUnit('call', 'call', ['eval::eval_call']), VUnit('scoped', 'scoped', ['eval::eval_stmts', 'eval::eval_stmts_in_new_scope']), VUnit('items', 'items', ['eval::eval_list_items'])],
     assumptions=[
         "message TEXT is not under contract (format! is opaque): 'human-readable, no internal identifier' follows from transparency + located-ness only for errors whose Display text is human-readable",
         "stdout/stderr ordering and exit status 103 (process-level, main is I/O) are not under contract",
@@ -200,12 +200,12 @@ PROPS["C13"] = Prop(
     "(or at least n-1 with a final ..rest), pattern i bound to element i left to right, rest = a fresh list of exactly xs[n-1..] "
     "(so prefix + rest == xs, lemma), spread item rejected, no index underflow/OOB; bind_next external (any behaviour). "
     "Unit V-name contributes the once-per-pattern name set clause.",
-    vunits=[V_LIST, V_NAME, V_CALL],
+    vunits=[V_LIST, V_NAME, V_CALL, VUnit('items', 'items', ['eval::eval_list_items'])],
     assumptions=[
         "grammar invariant: `..` (collect) is only produced together with a pattern/parameter (ParamList, ReverseExprList in parser.lalrpop, by inspection)",
         "A-lock: list cell modelled as exclusively owned",
-        "object destructuring (bind_object, bind_object_prop), spread expansion (eval_list_items) and validate_args are not under contract",
+        "object destructuring (bind_object, bind_object_prop) and validate_args are not under contract",
     ],
     trusted_base=VERUS_TRUST,
-    not_covered=["object patterns", "spread in list literals / argument lists", "parameter binding in eval_call (unit V-call if present)", "validate_args"],
+    not_covered=["object patterns / object spread", "validate_args", "nested patterns beyond the recursive binder's contract"],
 )
